@@ -151,7 +151,8 @@ def check(run, replay):
 
     # ---- X1b: the same through `cppcheck --dump` <rawtokens> (comments are part of rawtokens)
     nb = 40 if quick else 400
-    sample = [c for c in cases if c[0].strip() and b"\x80" not in c[0]][:nb]
+    # (the dump's XML writer rewrites control characters inside comment tokens: keep them out of this stream)
+    sample = [c for c in cases if c[0].strip() and b"\x80" not in c[0] and b"\x01" not in c[0]][:nb]
     _, mo, _ = vlib.run_lines([model], [vlib.enc_case(["lex"] + c) for c in sample])
     for k, (c, ml) in enumerate(zip(sample, mo)):
         m = vlib.dec_line(ml)
